@@ -130,9 +130,22 @@ def replay(recs):
             chk("Polyhedron.__eq__/translated", st, case, False, lambda: mk() == moved(), lambda v: bool(v) is False)
         elif t == "regular":
             n, c, rad = r["n"], r["c"], r["r"]
-            mk = lambda: g.RegularPolygon(g.Point(*c), rad, n)  # noqa: E731
-            case = {"n": n, "center": c, "radius": rad}
-            st2 = "regular/at-origin" if c == [0, 0] else "regular/elsewhere"
+            ax = r.get("ax") or None
+            mk = (lambda: g.RegularPolygon(g.Point(*c), rad, n)) if ax is None else (lambda: g.RegularPolygon(g.Point(*c), rad, n, axis=g.Point(*ax)))  # noqa: E731
+            case = {"n": n, "center": c, "radius": rad, "axis": ax}
+            st2 = ("regular/at-origin" if c == [0, 0] else "regular/elsewhere") if ax is None else st
+            if ax is not None:
+                def in_plane(vs):
+                    A = np.array([np.asarray(v.normalized_array[:-1], dtype=float) for v in vs])
+                    d = A - np.array(c, dtype=float)
+                    return bool(np.all(np.abs(d @ np.array(ax, dtype=float)) <= 1e-9 * np.linalg.norm(ax) * rad)
+                                and np.allclose(np.linalg.norm(d, axis=1), rad, rtol=1e-9)
+                                and np.allclose(np.linalg.norm(np.roll(A, -1, axis=0) - A, axis=1), 2 * rad * math.sin(math.pi / n), rtol=1e-9))
+                chk("RegularPolygon(axis).vertices", st2, case, "n points at distance r from the centre in the plane perpendicular to the axis, equally spaced",
+                    lambda: mk().vertices, in_plane)
+                # the length of the axis vector is irrelevant
+                chk("RegularPolygon(axis)/axis-rescaled", st2, case, "the same polygon", lambda: (mk(), g.RegularPolygon(g.Point(*c), rad, n, axis=g.Point(*[3 * x for x in ax]))),
+                    lambda v: bool(v[0] == v[1]))
             chk("RegularPolygon.radius", st2, case, rad, lambda: mk().radius, lambda v: close(v, rad))
             chk("RegularPolygon.center", st2, case, c, lambda: mk().center, lambda v: same_class(v.array, c + [1]))
             if r["inr2"][1] != 0:
@@ -203,7 +216,8 @@ def run(ctx: Ctx):
     strata = {}
     for x in recs:
         strata[x["s"]] = strata.get(x["s"], 0) + 1
-    for need in ("planar/at-origin", "planar/elsewhere", "embedded/elsewhere", "same-cycle", "different-cycle", "tetra", "cuboid", "regular"):
+    for need in ("planar/at-origin", "planar/elsewhere", "embedded/elsewhere", "same-cycle", "different-cycle", "tetra", "cuboid", "regular",
+                 "regular3/axis-parallel", "regular3/axis-in-coordinate-plane", "regular3/axis-generic"):
         if not strata.get(need):
             raise MachineryError(f"stratum {need} never visited (vacuous)")
     ctx.log(f"{len(recs)} cases")
